@@ -1,6 +1,8 @@
 (* XmlStruct -- proofs about instances with a history (XmlStruct/Instance.v):
    1. with the store policy "always assign" reading into ANY populated instance is reading into a fresh instance,
       and every policy that keeps the previous value for some member that can read as None breaks that;
+   3. with the get policy GetIfNone attribute access returns every stored value, whatever its truth value; GetIfFalsy
+      replaces every stored falsy value that differs from the implied one;
    2. with the attach mode Copy a write changes neither the value nor any document that exists, and a second write
       yields the same document; with Move (lxml re-parents) earlier documents lose their content. *)
 From Coq Require Import List ZArith NArith Bool Lia.
@@ -168,3 +170,45 @@ Lemma move_source_refuted b :
   let w0 := exec Move world0 [OParse [b]] in        (* a parsed document with one extension element *)
   fst (render w0) = [[b]] /\ fst (render (exec Move w0 [ORead 0; OWrite])) = [[]; [b]].
 Proof. simpl. unfold render, detach, has_id. simpl. auto. Qed.
+
+(* ------------------------------------------------------------------ 3. attribute access *)
+(* whatever is stored is what attribute access returns (the implied value never shadows a present value) *)
+Lemma public_get_present fz p implied raw : raw <> VNone -> public_get GetIfNone fz p implied raw = raw.
+Proof.
+  intros H. unfold public_get. destruct (p_kind p); simpl; destruct raw; try congruence; destruct implied; reflexivity.
+Qed.
+
+(* nothing stored: the implied value (base class __get__) *)
+Lemma public_get_absent g fz p i : base_get (p_kind p) = true -> public_get g fz p (Some i) VNone = i.
+Proof. unfold public_get. destruct (p_kind p); simpl; intros H; try discriminate; reflexivity. Qed.
+
+Lemma public_all_present fz : forall ps impls raws, length impls = length ps -> length raws = length ps ->
+  Forall2 (fun raw pub => raw <> VNone -> pub = raw) raws (public_all GetIfNone fz ps impls raws).
+Proof.
+  induction ps as [|p ps IH]; intros [|i impls] [|r raws] Li Lr; simpl in *; try discriminate; constructor.
+  - intros H. now apply public_get_present.
+  - apply IH; lia.
+Qed.
+
+(* the value written, read back, seen through attribute access: every member that carries a value shows that value *)
+Lemma public_roundtrip classes (Hwf : forall c, In c classes -> wf_slots c) fz n cid fs tag t c impls :
+  valid classes n (VStruct cid fs) -> enc classes n (VStruct cid fs) tag = Some t -> lookup classes cid = Some c ->
+  length impls = length (c_props c) ->
+  exists fs', dec classes n cid t = Some (VStruct cid fs') /\
+              Forall2 (fun w pub => w <> VNone -> pub = w) fs (public_all GetIfNone fz (c_props c) impls fs').
+Proof.
+  intros V E Lc Li. destruct (class_roundtrip classes Hwf n cid fs tag V) as (t' & E' & D).
+  assert (t' = t) by congruence. subst t'. exists fs. split; auto.
+  apply public_all_present; auto.
+  destruct n; [destruct V|]. simpl in V. destruct V as (c' & Lc' & F).
+  assert (c' = c) by congruence. subst c'. apply Forall2_length' in F. lia.
+Qed.
+
+(* `if not value`: every stored falsy value that differs from the implied value is replaced *)
+Lemma get_if_falsy_refuted fz p i raw : base_get (p_kind p) = true -> raw <> VNone -> fz raw = true -> i <> raw ->
+  public_get GetIfFalsy fz p (Some i) raw = i /\ public_get GetIfFalsy fz p (Some i) raw <> raw.
+Proof.
+  intros B H F D. assert (E : public_get GetIfFalsy fz p (Some i) raw = i).
+  { unfold public_get. destruct (p_kind p); simpl in B; try discriminate; destruct raw; try congruence; now rewrite F. }
+  split; auto. now rewrite E.
+Qed.
